@@ -37,3 +37,13 @@ func (node *Node) VerifC21CosiFinalize(peerId crypto.Hash, s *common.Snapshot) (
 func (node *Node) VerifC21ElectSnapshotNode(operation byte, now uint64) crypto.Hash {
 	return node.electSnapshotNode(operation, now)
 }
+
+// VerifC21BuildMintTransaction exposes buildUniversalMintTransaction for the
+// custodian in charge at timestamp (unsigned; nil when no mint is possible).
+func (node *Node) VerifC21BuildMintTransaction(timestamp uint64) (*common.VersionedTransaction, error) {
+	cur, err := node.persistStore.ReadCustodian(timestamp)
+	if err != nil {
+		return nil, err
+	}
+	return node.buildUniversalMintTransaction(cur, timestamp, false), nil
+}
